@@ -18,13 +18,61 @@ type c03Case struct {
 	Thr    float64   `json:"thr"`
 	Corpus corpusSel `json:"corpus"`
 	In     recipe    `json:"in"`
+	// Tie: two synthetic documents of N and N+D distinct words; the input holds a copy of each with the same number
+	// of changed words, so the two confidences differ by about C*D/N^2 (far below any "rounding" tolerance, yet
+	// different). Corpus and In are ignored.
+	Tie *c03Tie `json:"tie,omitempty"`
+}
+
+type c03Tie struct {
+	N        int  `json:"n"`
+	D        int  `json:"d"`
+	Changes  int  `json:"changes"`
+	P        int  `json:"p"`
+	BigFirst bool `json:"bigFirst"`
+}
+
+func c03TieDoc(prefix string, n int) []string {
+	w := make([]string, n)
+	for i := range w {
+		w[i] = fmt.Sprintf("%s%c%c%c", prefix, 'a'+i%26, 'a'+(i/26)%26, 'a'+(i/676)%26)
+	}
+	return w
+}
+
+func (tc *c03Tie) build() ([]corpusFile, []byte) {
+	a, b := c03TieDoc("qa", tc.N), c03TieDoc("qb", tc.N+tc.D)
+	files := []corpusFile{{Cat: "License", Name: "TieSmall", Variant: "license.txt", Content: []byte(strings.Join(a, " "))},
+		{Cat: "License", Name: "TieBig", Variant: "license.txt", Content: []byte(strings.Join(b, " "))}}
+	edit := func(w []string) string {
+		c := append([]string{}, w...)
+		for k := 0; k < tc.Changes; k++ {
+			c[(tc.P+k*37)%len(c)] = fmt.Sprintf("zzoov%czz", 'a'+k%26)
+		}
+		// 12 words per line
+		var sb strings.Builder
+		for i, x := range c {
+			sb.WriteString(x)
+			if i%12 == 11 {
+				sb.WriteByte('\n')
+			} else {
+				sb.WriteByte(' ')
+			}
+		}
+		return sb.String()
+	}
+	first, second := edit(a), edit(b)
+	if tc.BigFirst {
+		first, second = second, first
+	}
+	return files, []byte(first + "\n\nfiller line between the copies\n\n" + second + "\n")
 }
 
 var c03NamePool = []string{"", ".", "..", " ", "a b", "License", "Header", "x.txt", "naïve", "日本", "a.b.c", "-", "v1", "Copyright", "*", "%s", "\t"}
 
 var c03Fragments = []string{"-\n", "-\n-\n-\n", "\n\n\n", "a-\n\n\nb", "word-\n   next", "&amp;", "&#0;", "(c)", "copyright 2020 foo\n", "Copyright (c) 2001 Bar\n",
 	"2019-03-14\n", "1. ", "a) ", "\r\n", "\xff\xfe", "\xf4\x90\x80\x80", "\x00", "·", "*", "©", "the software is provided as is without warranty of any kind",
-	"permission is hereby granted free of charge to any person obtaining a copy", "licensed under the apache license version 2.0", "https://", " - \n"}
+	"permission is hereby granted free of charge to any person obtaining a copy", "licensed under the apache license version 2.0", "https://", " - \n", "word--\n", "soft---\nware\n", "a\u2014-\nb", "end--\n", "x--\n\n"}
 
 func genHostileText(t *rapid.T) []byte {
 	var buf bytes.Buffer
@@ -56,6 +104,11 @@ func genHostileText(t *rapid.T) []byte {
 
 func c03Gen(t *rapid.T) interface{} {
 	c := &c03Case{}
+	if lib.IntN(t, 0, 11, "tie") == 0 {
+		c.Thr = lib.PickFloat(t, []float64{0.5, 0.8, 0.9, 0.99}, "tieThr")
+		c.Tie = &c03Tie{N: lib.IntN(t, 200, 3000, "tieN"), D: lib.IntN(t, 1, 3, "tieD"), Changes: lib.IntN(t, 1, 2, "tieChanges"), P: lib.IntN(t, 0, 2999, "tieP"), BigFirst: lib.Bool(t, "tieBigFirst")}
+		return c
+	}
 	switch lib.Weighted(t, []int{35, 35, 30}, "corpusKind") {
 	case 0:
 		c.Corpus = corpusSel{Full: true}
@@ -172,6 +225,25 @@ func c03Check(ci interface{}) lib.Outcome {
 		if strings.ContainsRune(d.Cat+d.Name+d.Variant, '/') {
 			return lib.Outcome{Skip: "malformed"}
 		}
+	}
+	if c.Tie != nil {
+		tc := c.Tie
+		if tc.N < 20 || tc.N > 5000 || tc.D < 1 || tc.D > 100 || tc.Changes < 1 || tc.Changes > 5 || tc.P < 0 {
+			return lib.Outcome{Skip: "malformed"}
+		}
+		files, input := tc.build()
+		cl := buildClassifier(c.Thr, files)
+		res := cl.Match(input)
+		desc := fmt.Sprintf("two synthetic documents of %d and %d distinct words, each copied with %d changed word(s), bigger copy first=%v, threshold %v", tc.N, tc.N+tc.D, tc.Changes, tc.BigFirst, c.Thr)
+		if msg := c03WellFormed(cl, c.Thr, files, input, res); msg != "" {
+			return lib.Outcome{Violation: desc + ": " + msg}
+		}
+		o := lib.Outcome{Classes: []string{"near-tie-of-confidences"}, Nontrivial: len(res.Matches) == 2 && res.Matches[0].Confidence != res.Matches[1].Confidence}
+		if o.Nontrivial {
+			o.FP = desc
+			o.Sample = map[string]interface{}{"case": desc, "matches": fmtRecs(rawList(res))}
+		}
+		return o
 	}
 	cl := classifierFor(c.Thr, c.Corpus)
 	input := c.In.build(cl)
